@@ -204,6 +204,14 @@ def enumerate_ops(t, rng, exhaustive):
             add("edge_collapse", t=i, kw={})     # documented ValueError (terminal)
     if n >= 2:
         add("remove_child", t=0, c=-1, kw={})    # documented ValueError (not a child)
+        # a node that IS in the tree, but under another parent (grandchild, sibling subtree, ancestor, the node itself):
+        # the documented ValueError must leave the tree as it was
+        for i in pick(range(n), 3):
+            kids = set(id(c) for c in t.nodes[i]._child_nodes)
+            others = [j for j in range(n) if id(t.nodes[j]) not in kids]
+            if others:
+                for s_ in (False, True):
+                    add("remove_child", t=i, c=rng.choice(others), nonchild=True, kw={"suppress_unifurcations": s_})
     return out
 
 
@@ -406,6 +414,9 @@ def apply_op(t, d, rng):
             exp["allowed"] = (ValueError,)
             return exp, lambda: nd.remove_child(other)
         ch = t.nodes[d["c"]]
+        if d.get("nonchild"):
+            exp["allowed"] = (ValueError,)
+            return exp, lambda: nd.remove_child(ch, **kw)
         exp["removed"] = t.clade(d["c"])
         if len(nd._child_nodes) == 1 and nd.taxon is not None:
             exp["added"] = [nd.taxon.label]
